@@ -21,5 +21,5 @@ SpecOne == InitOne /\ [][FALSE /\ p' = p]_vars
 One == LET e == Explicit(p)
            v == Valid(e)
            d == Deser(e)
-       IN PrintT(ToJson([c02 |-> HoldsC02(e, d, v), c17 |-> HoldsC17(d)] @@ Rec(e, d, v)))
+       IN PrintT(ToJson([c02 |-> C02With(e, d), c17 |-> C17With(d)] @@ Rec(e, d, v)))
 =============================================================================
